@@ -23,6 +23,22 @@ def err_type(ty):
     return None
 
 
+def result_aliases(fn, d):
+    """locals holding the Result itself or a reference to the whole of it"""
+    out = set(forward_aliases(fn, d, limit=20))
+    work = list(out)
+    while work and len(out) < 30:
+        l = work.pop()
+        for b in fn.blocks:
+            for s in b["s"]:
+                if s[0] == "=" and len(s[1]) == 1 and s[2][0] == "ref" and s[2][2] == [l] and s[1][0] not in out:
+                    for x in forward_aliases(fn, s[1][0], limit=20):
+                        if x not in out:
+                            out.add(x)
+                            work.append(x)
+    return out
+
+
 def dropped_results(fn):
     """yield (block, call term, how) for every call result of type Result<_, E != Infallible> that is dropped"""
     for bi, t in fn.calls():
@@ -35,12 +51,19 @@ def dropped_results(fn):
             continue
         if d == 0:
             continue
-        als = forward_aliases(fn, d, limit=20)
+        als = result_aliases(fn, d)
+        returned_in = set()
         if 0 in als:
-            continue
-        good = False
+            # moved into the return place: delivered on the paths that pass the move (checked path-sensitively below)
+            for b0i, b0 in enumerate(fn.blocks):
+                for s0 in b0["s"]:
+                    if s0[0] == "=" and s0[1] == [0] and s0[2][0] == "use" and s0[2][1][0] in ("c", "m") \
+                            and s0[2][1][1][0] in als and len(s0[2][1][1]) == 1:
+                        returned_in.add(b0i)
+            als = als - {0}
+        good = bool(returned_in)
         bad = None
-        use_blocks = set()
+        use_blocks = set(returned_in)
         for l in als:
             for ubi, kind, obj in uses_of_local(fn, l):
                 if kind == "call":
@@ -69,7 +92,9 @@ def dropped_results(fn):
                         good = True       # stored into a field / through a reference
                         use_blocks.add(ubi)
                     elif rv[0] == "use":
-                        pass              # alias, handled by forward_aliases
+                        pass              # alias, handled by result_aliases
+                    elif rv[0] == "ref" and rv[2] == [l] and len(obj[1]) == 1:
+                        pass              # `&r`: the reference is an alias (what is done through it decides)
                     else:
                         good = True
                         use_blocks.add(ubi)
